@@ -1181,7 +1181,7 @@ func runC15(c *Ctx) {
 		c15Replay(c, rep)
 		return
 	}
-	r.Require("seq_histories", "seq_fresh_plans", "seq_held_plans", "wrap_plans_checked", "conc_histories", "conc_plan_ops", "conc_histories_with_plan_held_across_event", "porcupine_selftest_ok", "porcupine:Ok")
+	r.Require("seq_histories", "seq_fresh_plans", "seq_held_plans", "wrap_plans_checked", "conc_histories", "conc_plan_ops", "conc_histories_with_plan_held_across_event", "porcupine_selftest_ok", "porcupine:Ok", "e2e_plans_checked")
 
 	// thorough: the last shard only makes the 2^32+10 real calls; the others share the rest
 	workers, dedicated := c.NShards, false
@@ -1203,6 +1203,13 @@ func runC15(c *Ctx) {
 		}
 		c15WrapReal(c, rep, 3)
 		return
+	}
+
+	// part 0: notifications produced by the real cluster from a control connection
+	for i := 0; i < c.Pick(24, 400); i++ {
+		if mine(i) {
+			c15EndToEnd(c, i)
+		}
 	}
 
 	// part 1
